@@ -384,3 +384,55 @@ def _(tier, seed):
             if len(failures) >= 3:
                 break
     return dict(evaluations=evals, distinct=len(shapes), failures=failures)
+
+
+@bounded("boxes-are-the-connected-components-of-the-neighbour-relation", props=["C09", "C08"],
+         bound="every neighbour relation on 1..4 lines in which a line found by any line also finds itself (6 697 relations; what find_neighbors can return, see its "
+               "contract): the boxes yielded by the real group_textlines are exactly the connected components of the relation read as an undirected graph "
+               "(a line joins every line it finds and every line that finds it), each component once, in order of its first line")
+def _(tier, seed):
+    import itertools
+    from contracts.c08_layout import make_char
+    cases, failures = 0, []
+    for n in (1, 2, 3, 4):
+        for bits in itertools.product([0, 1], repeat=n * n):
+            R = [[j for j in range(n) if bits[i * n + j]] for i in range(n)]
+            found = {j for i in range(n) for j in R[i]}
+            if any(j not in R[j] for j in found):
+                continue
+            # reference: union-find over the undirected edges
+            comp = list(range(n))
+            def root(a):
+                while comp[a] != a:
+                    a = comp[a]
+                return a
+            for i in range(n):
+                for j in R[i]:
+                    ra, rb = root(i), root(j)
+                    if ra != rb:
+                        comp[max(ra, rb)] = min(ra, rb)
+            want = {}
+            for i in range(n):
+                want.setdefault(root(i), []).append(i)
+            want = sorted(sorted(v) for v in want.values())
+            cont = lay.LTLayoutContainer((0, 0, 100, 100))
+            lines = []
+            for i in range(n):
+                ln_ = lay.LTTextLineHorizontal(0.1)
+                ln_.add(make_char((10 * i, 10 * i, 10 * i + 5, 10 * i + 5), "x"))
+                lines.append(ln_)
+            for i, ln_ in enumerate(lines):
+                ln_.find_neighbors = (lambda i: lambda plane, ratio: [lines[j] for j in R[i]])(i)
+            cases += 1
+            try:
+                boxes = list(cont.group_textlines(lay.LAParams(), lines))
+                got = sorted(sorted(lines.index(l_) for l_ in b) for b in boxes)
+                ok = got == want
+                detail = "boxes %r, connected components %r" % (got, want)
+            except Exception as e:  # noqa: BLE001
+                ok, detail = False, "%s: %s" % (type(e).__name__, e)
+            if not ok:
+                failures.append(dict(neighbours_of_each_line=R, got=detail))
+                if len(failures) >= 3:
+                    return dict(evaluations=cases, distinct=cases, failures=failures)
+    return dict(evaluations=cases, distinct=cases, failures=failures)
